@@ -113,6 +113,12 @@ def analyse(obs: Obs, prog):
         obs.add(props_k | {"C22"}, "ADDR-ALIGN", inst + "/callee-args", cal[2] == want_args, derived=show(("tuple", cal[2]))[:300], expected=show(("tuple", want_args))[:300] + "  (sub-trace, sub-constraint/selection/request all looked up at the same addr)", where=w)
         if kind in ("update", "static_request", "regenerate"):
             obs.add(props_k, "ADDR-ALIGN", inst + "/request", cal[1][1] == req, derived=cal[1][1], expected=show(req), where=w)
+            # the callee that performs the edit must be the one the RE-EXECUTED program hands to handle_trace (`gen_fn`): a callee object can carry data
+            # (partial_apply(a), a closure, a combinator of those) and that data changes with the arguments.  `request.edit(key, subtrace, argdiffs)`
+            # dispatches on subtrace.get_gen_fn() - the callee captured when the OLD trace was made.
+            obs.add({"update": {"C05"}, "static_request": {"C38"}, "regenerate": {"C07"}}[kind], "CALLEE-FRESH", inst + "/callee", mentions(cal, P("gen_fn")),
+                    construct="callee that performs the edit", derived=f"{show(cal)[:160]} - the `gen_fn` argument of handle_trace is unused; the edit runs on subtrace.get_gen_fn()",
+                    expected="the re-executed program's callee (gen_fn) edits the sub-trace, so data captured by the callee follows the argument change", where=w)
         if kind != "assess":
             obs.add({"C04"}, "KEY-LINEAR", inst + "/key", cal[2][0] == keyt, derived=cal[2][0], expected="fold_in(self.key, self.key_counter)", where=w)
         # ---- record exactly once with own addr and the callee's trace
@@ -125,7 +131,14 @@ def analyse(obs: Obs, prog):
             # MissingAddress iff the sub-sample is statically empty, before the callee runs
             mis = [(c, x) for c, x in r.raises if (is_t(x, "ctor") and x[1] == "MissingAddress") or is_call(x, "MissingAddress")]
             emp = ("call", ("attr", sub, "static_is_empty"), (), ())
-            okm = len(mis) == 1 and cond_has(mis[0][0], lambda t: t == emp, True) and (mis[0][1][2] == (ADDR,))
+            has_emp = lambda t: t == emp or (is_t(t, "bool") and t[1] == "and" and emp in t[2])
+            okm = len(mis) == 1 and cond_has(mis[0][0], has_emp, True) and (mis[0][1][2] == (ADDR,))
+            # ... but an empty sub-map is not a missing value when the callee makes no random choice (a deterministic @gen callee, a zero-length vmap / scan):
+            # simulate gives such a trace an empty choice map, and assess(tr.get_choices(), tr.get_args()) must accept it
+            only_emp = len(mis) == 1 and all(t == emp for t, p in mis[0][0] if p) and not any(mentions(t, P("gen_fn")) for t, p in mis[0][0])
+            obs.add({"C01", "C02"}, "MISSING-EXACT", inst + "/empty-callee", not only_emp, construct="MissingAddress for every statically empty sub-map",
+                    derived="raises MissingAddress(addr) whenever choice_map(addr) is statically empty, whatever the callee is: a callee without random choices has an empty sub-map by construction",
+                    expected="no MissingAddress for a callee that makes no random choice", where=w)
             obs.add({"C22"}, "MISSING-ADDR", inst + "/raise", okm, derived=f"{[(show(x), [show(t) for t, p in c]) for c, x in r.raises]}", expected="raise MissingAddress(addr) iff choice_map(addr).static_is_empty()", where=w)
             body = H.methods["handle_trace"].body
             i_raise = next((i for i, s in enumerate(body) if isinstance(s, ast.If) and any(isinstance(x, ast.Raise) for x in ast.walk(s))), None)
